@@ -50,3 +50,28 @@ package utils
 //@   ensures result1 == nil ==> fresh(result0) && lastDiscovered == len(result0)
 //@ trusted func RecursiveCheckLibDirectory
 //@   modifies nothing
+
+// ---- C12: the temporary directory handed to hook executions is an absolute path ---------------
+// (the hook process runs in the hook's own directory: a relative path would point elsewhere)
+//@ pure path/filepath.IsAbs
+//@ package path/filepath
+//@ trusted func Abs
+//@   modifies nothing
+//@   ensures result1 == nil ==> IsAbs(result0)
+//@ package os
+//@ trusted func MkdirTemp
+//@   modifies nothing
+//@   ensures result1 == nil ==> filepath.IsAbs(result0)
+//@ trusted func Mkdir
+//@   modifies nothing
+//@ package github.com/flant/shell-operator/pkg/utils/file
+//@ trusted func DirExists
+//@   modifies nothing
+//@ func EnsureTempDirectory
+//@   prop C12
+//@   modifies nothing
+//@   ensures [absolute] result1 == nil ==> filepath.IsAbs(result0)
+//@ func RequireExistingDirectory
+//@   prop C12
+//@   modifies nothing
+//@   ensures [absolute] result1 == nil ==> filepath.IsAbs(result0)
